@@ -64,6 +64,7 @@ theorem HSame_of_noSuffix (env : CEnv) (h : env.cfg.literalTypeBySuffixOnly = fa
   | .post _ _ _ => by simp only [HSame]
   | .call _ _ _ _ => by simp only [HSame]
   | .stmtexpr _ _ _ => by simp only [HSame]
+  | .seqexpr _ _ _ _ _ => by simp only [HSame]
 theorem HSameL_of_noSuffix (env : CEnv) (h : env.cfg.literalTypeBySuffixOnly = false) :
     (as : List CExpr) → HSameL env as = true
   | [] => by simp only [HSameL]
@@ -87,6 +88,7 @@ theorem HSameS_of_noSuffix (env : CEnv) (h : env.cfg.literalTypeBySuffixOnly = f
   | .skip _ => by simp only [HSameS]
   | .exprstmt e => by simp only [HSameS, HSame_of_noSuffix env h e]
   | .ret e => by simp only [HSameS, HSame_of_noSuffix env h e]
+  | .vcall _ _ args _ => by simp only [HSameS, HSameL_of_noSuffix env h args]
 theorem HSameSs_of_noSuffix (env : CEnv) (h : env.cfg.literalTypeBySuffixOnly = false) :
     (ss : List CStmt) → HSameSs env ss = true
   | [] => by simp only [HSameSs]
